@@ -1,14 +1,42 @@
 CFG = {
-    "jobs": lambda tier: [J("prod", "c15", timeout=2400)],
-    "rule": "production build with a counting global allocator: for each of the 4 layer combinations and each of {write to a counting sink, repair from a "
+    "jobs": lambda tier: [
+        J("prod", "c15", timeout=2400),
+        J("scaled", "c15-dims", imports="Base Stream Inst Run RunC15", shard=32),
+        J("prod", "c15-blocks", timeout=1200),
+    ],
+    "run_modules": ["RunC15"],
+    "rule": "c15: production build with a counting global allocator: for each of the 4 layer combinations and each of {write to a counting sink, repair from a "
             "file into a counting sink, linear extraction from a file into counting sinks}: an archive of three interleaved files in exactly 12 runs, fed "
             "in 1 MiB appends from a generator, of 24 MiB and of 96 MiB (thorough: 384 MiB); peak live heap above the live heap at entry is measured for "
-            "both sizes; every case is non-trivial; distinct = distinct (operation, layers)",
+            "both sizes; the same with three runs only, each handed over in ONE append call (one content block per file, 8 / 32 MiB each: layers none and compress+encrypt; thorough: all four); every case is non-trivial; distinct = distinct (operation, layers, block shape). "
+            "c15-dims (scaled name limit): 250 (thorough 1500) generated call sequences on the real layer-less ArchiveWriter — 1-6 files started up front or lazily "
+            "(names incl. empty / maximal / multi-byte; 1 in 12 over-long or duplicate, refused), 0-5 appends per file randomly interleaved, append sizes "
+            "{0, 1-64, 1000-5000, 50000-300000} bytes, add_file 1 in 6, occasional flush and calls on unknown ids, files left open for the epilogue 1 in 8 — "
+            "plus three fixed sequences (an end call recording a run without any append; one 4 MB append; interleaved 70/90 KB appends) and one case "
+            "checking the nominal sizes of the measure against size_of of the Rust types; non-trivial = at least one byte appended; distinct = distinct call sequence. "
+            "c15-blocks (production build, counting allocator): layers {none, compress+encrypt} x {write, repair, linear extraction} of an archive holding ONE FileContent block of 4 MiB "
+            "and of 48 MiB (thorough: 192 MiB) written by a single append_file_content call fed by a generator",
     "exhaustive": {"quick": True, "thorough": True},
     "explanation": "theorems: chunk cache <= CHUNK in every reachable reader state, repair cache <= CACHE, copy pieces <= 8 KiB, writer tables depend on "
-                   "the shape of the call sequence only (not on the bytes per append); correspondence (oracle only): peak(big) <= peak(small) + 1 MiB + "
-                   "16 bytes per 4 MiB block (the compression size table, the one structure that grows with the data) and peak <= 80 MiB",
+                   "the shape of the call sequence only (not on the bytes per append); an explicit size measure (theories/MemSize.v) with bounds over EVERY "
+                   "input: archive writer wmem <= 208 + 208 per file started + 8 per run + name bytes, runs + open <= 2 * files + append calls (an append of any "
+                   "size adds at most one run); encryption writer holds <= CHUNK, encrypts <= min(CIPHERBUF, CHUNK) per write; compression writer buffers <= BLOCK and "
+                   "its size table has T/BLOCK-1..T/BLOCK entries after T bytes (the one data-proportional term: 4 bytes per block, stated as "
+                   "C15_comp_sizes_table_growth); linear extraction peak <= fixed + (32 + FNMAX) per FileStart parsed; repair loop state after any number of "
+                   "blocks <= fixed + CACHE + (384 + 2 FNMAX) per output file + 8 per run, a FileContent block of any length adds at most one run. "
+                   "correspondence c15 (oracle only): peak(big) <= peak(small) + 1 MiB + 16 bytes per 4 MiB block (the compression size table, the one "
+                   "structure that grows with the data) and peak <= 80 MiB. correspondence c15-dims: results of every call, per-file number of offsets, "
+                   "number of files, runs, name bytes and the measure, read from the footer of the real archive by the harness's own parser, equal the "
+                   "writer model's on the same calls with appends cut down to 1-3 bytes (C15_writer_mem_shape_only); oracle: the real writer on the "
+                   "cut-down calls gives the same results and dimensions, offsets <= 2 * files + append calls, no panic, size_of::<String / FileInfo / "
+                   "Sha256 / ArchiveWriterState / HashMap>() match the constants of the measure. correspondence c15-blocks (oracle only): the peak live heap "
+                   "does not follow the size of a single FileContent block (same 1 MiB + 16 bytes per 4 MiB tolerance): the implementation side of "
+                   "C15_repair_content_block_one_run / C15_copy_pieces_bounded / a single append of any size",
     "assumptions": ["PARTIAL: the process heap (allocator, Vec growth, brotli encoder/decoder state of ~19 MB / ~7 MB at window 22) is measured, not proved",
-                    "the number of files and of non-contiguous runs is the same at both sizes, as the property's bound allows a term proportional to them"],
-    "level_note": "partial: buffer and table bounds proved on the model; the live heap is only measured by the job; trusted: Coq kernel, the harness and its counting allocator",
+                    "the number of files and of non-contiguous runs is the same at both sizes, as the property's bound allows a term proportional to them",
+                    "the measure counts nominal 64-bit sizes of the fields listed in theories/MemSize.v; spare capacity of Vec / HashMap (a constant factor), "
+                    "allocator headers and the stack are not counted; Sha256 / GHASH / brotli states are fixed-size objects the model stands for by the bytes "
+                    "they absorbed (not counted by length)",
+                    "the compression writer's size table grows by 4 bytes per BLOCK (4 MiB) of data: the property's bound ignores this term"],
+    "level_note": "partial: buffer and table bounds proved on the model; the live heap is only measured by the job; trusted: Coq kernel, the harness and its counting allocator, the correspondence list of MemSize.v (which Rust field each component of the measure stands for)",
 }
